@@ -228,7 +228,13 @@ func runQSpec(s *qSpec, maxStates int) *qResult {
 				res.transitions++
 				k, bad := eval(nh)
 				if bad != "" {
-					res.viol = &explore.Violation{Sig: "C20:" + s.Kind, Msg: s.name() + ": " + bad}
+					sig := "C20:" + s.Kind
+					for _, x := range nh {
+						if x == "shrink" {
+							sig = "C20:" + s.Kind + "/after-shrink"
+						}
+					}
+					res.viol = &explore.Violation{Sig: sig, Msg: s.name() + ": " + bad}
 					res.hist = nh
 					return res
 				}
@@ -369,6 +375,35 @@ func c20Specs(quick bool) []*qSpec {
 			specs = append(specs, &qSpec{Kind: kind, Params: []int{1, 2, 2}, Ramp: ramp, Alpha: append(nodeAlpha, "rellac"), Depth: d - 3})
 		}
 	}
+	// a narrow alphabet explored deeper: the tail retreats out of a node (PopRight), the queue is drained to a few
+	// survivors and restructured, then refilled across the node that stayed allocated beyond the tail
+	for _, kind := range []string{"lock", "command", "manager"} {
+		for _, p := range [][]int{{1, 1, 1}, {1, 2, 2}} {
+			specs = append(specs, &qSpec{Kind: kind, Params: p, Alpha: []string{"push", "pop", "popright", "restructuring", "len", "iter"}, Depth: d + 4})
+		}
+	}
+	// ... and from ramps that leave a node allocated beyond the tail (fill into a fresh node, PopRight back out of
+	// it, drain to two survivors): a restructure then frees nodes although the newest node index is not the tail's
+	for _, kind := range []string{"lock", "command", "manager"} {
+		for _, pr := range []struct {
+			p []int
+			n int
+		}{{[]int{1, 1, 1}, 16}, {[]int{1, 2, 2}, 15}, {[]int{1, 4, 4}, 29}} {
+			if quick && kind != "lock" && pr.n == 29 {
+				continue
+			}
+			ramp := rampPush(pr.n)
+			ramp = append(ramp, hapi.QOp{Op: "popright"}, hapi.QOp{Op: "popright"})
+			for i := 0; i < pr.n-4; i++ {
+				ramp = append(ramp, hapi.QOp{Op: "pop"})
+			}
+			specs = append(specs, &qSpec{Kind: kind, Params: pr.p, Ramp: ramp, Alpha: []string{"push", "pop", "popright", "restructuring", "len", "iter"}, Depth: d + 4})
+		}
+	}
+	// Shrink (no call site in slock) in a spec of its own, so that what it breaks does not stop the other searches
+	for _, kind := range []string{"lock", "command", "manager"} {
+		specs = append(specs, &qSpec{Kind: kind, Params: []int{1, 2, 2}, Alpha: []string{"push", "pop", "len", "iter", "shrink", "reset"}, Depth: 6})
+	}
 	keyAlpha := []string{"push", "pop", "head", "len", "iter", "resize", "reset"}
 	for _, n := range []int{0, 5, 6, 7, 12, 13, 191, 192, 193} {
 		if quick && n > 13 && n != 192 {
@@ -463,7 +498,7 @@ func init() {
 			"explanation": "fill-and-drain sweeps (every fill level 1..700 quick / 1..2100 thorough of the per-key queues, 1..160 of the node queues: push n, pop one by one with a refill midway, length + head + full iteration compared after every pop) plus explicit-state BFS over operation sequences on each real queue type and constructor parameter set (fresh queue, sequence replayed), from the empty queue and from ramped non-initial states that cross the 6/8/128-entry representation switches; states keyed by the queue's cursors, node sizes and content shape; every returned element, length and iteration is compared with a plain slice deque / stable priority queue",
 		}, []string{
 			"operation contracts as used by slock: Rellac and Reset empty the queue, PushLeft may refuse, Restructuring drops holes made by in-place nil-ing, Resize and freeQueue do not change the content",
-			"Shrink is not exercised: no call site in slock and no documented contract",
+			"Shrink (no call site in slock, no documented contract) is exercised in searches of its own; what it breaks is a listed finding",
 			"per-key queues are driven with live entries only (dead-entry compaction is exercised through the engine in C02/C04/C17)",
 		}, viol)
 		fmt.Printf("C20 %s: %d states, %d transitions, %d violations\n", c.Tier, states, trans, viol)
